@@ -17,11 +17,11 @@ func init() {
 	reg(&core.Property{
 		ID: "C16", Level: "exploration",
 		Batches: []core.Batch{
-			{Name: "mux", Engine: chain.Engine{Prop: "C16"}, Quick: 320, Thorough: 4000,
+			{Name: "mux", Engine: chain.Engine{Prop: "C16"}, Quick: 320, Thorough: 3000,
 				Rule: "a run is non-trivial when at least three heights were produced, at least one corrupted transaction was fed to CheckTx of a live multiplexer and at least one was included in a block"},
-			{Name: "decoders", Engine: decode.DecoderEngine{}, Quick: 1280, Thorough: 20000,
+			{Name: "decoders", Engine: decode.DecoderEngine{}, Quick: 1280, Thorough: 16000,
 				Rule: "a run is non-trivial when at least one mutant differing from its valid original was presented at a decode/verify entry point and at least one was rejected"},
-			{Name: "stream", Engine: decode.StreamEngine{}, Quick: 640, Thorough: 8000,
+			{Name: "stream", Engine: decode.StreamEngine{}, Quick: 640, Thorough: 6000,
 				Rule: "a run is non-trivial when at least one valid request/response exchange completed over a connection of the scenario (every scenario holds 12 to 32 connection lifecycles)"},
 		},
 		Real: append(append([]string{}, chainReal...),
